@@ -33,6 +33,7 @@ import NetflowModel.Props.C14b
 import NetflowModel.Props.C06c
 import NetflowModel.Props.C15b
 import NetflowModel.Props.C15c
+import NetflowModel.Props.C15d
 import NetflowModel.Props.C08b
 import NetflowModel.Props.C07c
 import NetflowModel.Props.C07d
